@@ -649,8 +649,8 @@ Sanity checks (`#eval`, not part of the proofs).  At `Rat` (with a dummy `ScoreO
 The sign statements need the functional of the score: overriding it gives negative components,
   decompose sq (some (some .quantile)) (some (1/2)) [0,0,0,10] [[1,1,2,2]] none
                                                                 = ok [(-15/2, 0, 25, 35/2)].
-Not covered by the sign theorems: `LogLoss` (the real model of `xlogy`/`log` agrees with numpy only
-on `(0,1)`-valued predictions, while recalibrated values of binary data hit `0` and `1`).
+`LogLoss` is covered in `MD/Props/C06b.lean` (the real model of `xlogy`/`log` agrees with numpy only
+on `(0,1)`-valued predictions, while recalibrated values of binary data hit `0` and `1`: pure blocks).
 A random search at `Rat` (3000 data sets per functional) found no negative `mcb`/`dsc` for
 `ElementaryScore`, in line with `C06_elementary_score`.
 -/
